@@ -74,5 +74,11 @@ rec(12, "C14", f"set_at('[n], i j, i -> [n]') -> {o[1].tolist() if o[0]=='ok' el
 body = ("import numpy as np, einx; print(einx.set_at('[n], i j, j i -> [n]', np.zeros(3), np.array([[0,0],[0,1]]), np.array([[1.,2.],[3.,4.]])).tolist())")
 outs = {s: subprocess.run([sys.executable, "-c", body], capture_output=True, text=True, env=dict(os.environ, PYTHONHASHSEED=str(s))).stdout.strip() for s in range(6)}
 rec(13, "C16", f"set_at('[n], i j, j i -> [n]') under seeds 0..5 -> {sorted(set(outs.values()))}", len(set(outs.values())) > 1)
+code2 = ("import numpy as np, einx, warnings; warnings.simplefilter('ignore'); x=np.ones((2,3))\n"
+         "g = einx.numpy.adapt_numpylike_elementwise(lambda a, b, *, opt=None: np.copysign(a + b, opt))\n")
+def sub2(body):
+    return subprocess.run([sys.executable, "-c", code2 + body], capture_output=True, text=True, env=dict(os.environ, PYTHONHASHSEED="0")).stdout.strip()
+cold = sub2("print(g('a b, a b', x, x, opt=-0.0)[0, 0])"); warm = sub2("g('a b, a b', x, x, opt=0.0); print(g('a b, a b', x, x, opt=-0.0)[0, 0])")
+rec(14, "C06", f"adapted function with opt=-0.0: cold={cold} after opt=0.0: {warm}", cold != warm)
 for no, prop, what, bad in R:
     print(f"defect {no:2d} {prop} {'REPRODUCED    ' if bad else 'not reproduced'} {what}")
